@@ -12,7 +12,15 @@
           25 = C14_spike_depths   spikes.depths
           26 = C14_durations      clusters.peakToTrough
           27 = C14_rawind         channels.rawInd = each probe's original channel map
-          3  = input outside the stated regime (harness bug) *)
+          3  = input outside the stated regime (harness bug)
+   InAlfBig: a dataset of n spikes, n above the batch size 50000 of get_depths, that repeats the k spikes
+   of [x] (templates, amplitudes, feature rows) periodically; [x] is the loaded model restricted to its first
+   period (the harness checks that the loaded arrays are that period repeated and that the amplitudes are
+   constant per template, so that the per-template means do not depend on n).  The per-spike files
+   (spikes.amps, spikes.depths) must have n entries and are judged entry j against entry j mod k of the
+   model evaluated on one period: by C14_spike_depths / C09_depths (proved for every batch size) and
+   C14_amp_units the exported value of spike j depends only on the template, amplitude and feature row of
+   spike j.  Every other file is judged as for InAlf. *)
 From Coq Require Import ZArith QArith Qabs List Bool.
 From PV Require Export Base.Tok Base.TokArith C09.Model C09.Spec C14.Model C14.Spec.
 Import ListNotations.
@@ -55,7 +63,10 @@ Record alf_obs := mk_alf_obs {
 }.
 (* x: the loaded model; factor, rate; orig: Some maps = the dataset was produced by the Merger from probe
    directories with these channel maps; nan: model.nan_idx as loaded *)
-Inductive input := InAlf (x : alf_in) (factor rate : tok) (orig : option (list (list Z))) (nan : list Z) | InBad.
+Inductive input :=
+| InAlf (x : alf_in) (factor rate : tok) (orig : option (list (list Z))) (nan : list Z)
+| InAlfBig (x : alf_in) (factor rate : tok) (nan : list Z) (n : Z)
+| InBad.
 Inductive observed := ObsAlf (o : alf_obs) | ObsCrash.
 Record case := { cid : Z; cin : input; cobs : observed }.
 
@@ -101,11 +112,26 @@ Definition chans_ok (x : alf_in) (data : list mat) (rows : list (list Z)) : bool
   all2b (fun p row => listed_b (x_pos x) (x_probes x) nc (ncw_of x) p row) (peak_channels nc data) rows.
 Definition all_equal (l : list Z) : bool := match l with [] => true | a :: r => forallb (Z.eqb a) r end.
 
-Definition check (c : case) : list Z :=
-  match cin c, cobs c with
-  | InBad, _ => [1; 20]
-  | InAlf _ _ _ _ _, ObsCrash => [1; 20]
-  | InAlf x factor rate orig nan, ObsAlf o =>
+(* per-spike lists: entry for entry, or (periodic datasets) n entries, entry j against pattern entry j mod k *)
+Fixpoint cyc {A B} (f : A -> B -> bool) (pat cur : list A) (l : list B) : bool :=
+  match l with
+  | [] => true
+  | x :: r => match cur with
+              | p :: cur' => f p x && cyc f pat cur' r
+              | [] => match pat with
+                      | p :: cur' => f p x && cyc f pat cur' r
+                      | [] => false
+                      end
+              end
+  end.
+Definition per_spike (big : option Z) {A B} (f : A -> B -> bool) (m : list A) (o : list B) : bool :=
+  match big with
+  | None => all2b f m o
+  | Some n => (Z.of_nat (length o) =? n) && cyc f m m o
+  end.
+
+Definition check_alf (big : option Z) (x : alf_in) (factor rate : tok) (orig : option (list (list Z))) (nan : list Z)
+                     (o : alf_obs) : list Z :=
       if negb (regime x factor rate) then [3] else
       let nc := length (x_wmi x) in
       match export_with (map (row_nat nc) (o_tchan o)) (map (row_nat nc) (o_cchan o)) x (tok_Q factor) (tok_Q rate) with
@@ -114,10 +140,10 @@ Definition check (c : case) : list Z :=
           let g21 := waves_ok nc (y_twave y) (o_tchan o) (o_twave o) &&
                      waves_ok nc (y_cwave y) (o_cchan o) (o_cwave o) in
           let g22 := chans_ok x (x_tdata x) (o_tchan o) && chans_ok x (x_cdata x) (o_cchan o) in
-          let g23 := all2b close32 (y_samps y) (o_samps o) && all2b close64 (y_tamps y) (o_tamps o) &&
+          let g23 := per_spike big close32 (y_samps y) (o_samps o) && all2b close64 (y_tamps y) (o_tamps o) &&
                      all2b close64 (y_camps y) (o_camps o) in
           let g24 := all2b close64 (y_cdepths y) (o_cdepths o) && zl_eq (y_cpeak y) (o_cpeak o) in
-          let g25 := all2b close32 (y_sdepths y) (o_sdepths o) in
+          let g25 := per_spike big close32 (y_sdepths y) (o_sdepths o) in
           let g26 := all2b close64 (y_p2t y) (o_p2t o) in
           let g27 := match orig with
                      | Some maps => rawind_b maps (o_rawind o)
@@ -126,7 +152,17 @@ Definition check (c : case) : list Z :=
           let g1 := zl_eq (y_rawind y) (o_rawind o) && zl_eq (model_nan_idx (x_ncl x) (x_st x) (x_sc x)) nan in
           flag 1 (g1 && g21 && g23 && g24 && g25 && g26) ++
           flag 21 g21 ++ flag 22 g22 ++ flag 23 g23 ++ flag 24 g24 ++ flag 25 g25 ++ flag 26 g26 ++ flag 27 g27
-      end
+      end.
+
+Definition check (c : case) : list Z :=
+  match cin c, cobs c with
+  | InBad, _ => [1; 20]
+  | InAlf _ _ _ _ _, ObsCrash => [1; 20]
+  | InAlfBig _ _ _ _ _, ObsCrash => [1; 20]
+  | InAlf x factor rate orig nan, ObsAlf o => check_alf None x factor rate orig nan o
+  | InAlfBig x factor rate nan n, ObsAlf o =>
+      (* one full period at least, and the period itself inside C09's exact regime (k < 50000 <= n) *)
+      if negb ((1 <=? x_nspikes x) && (NBATCH <=? n)) then [3] else check_alf (Some n) x factor rate None nan o
   end.
 
 Definition dedupZ (l : list Z) : list Z :=
